@@ -19,9 +19,10 @@ from concurrent.futures import ThreadPoolExecutor
 VERIF = os.path.dirname(os.path.dirname(os.path.abspath(__file__)))
 REPO = os.environ.get('OMPL_REPO', '/repo')
 SRC = os.path.join(REPO, 'src')
-WORK = os.path.join(VERIF, '.work')
+WORK = os.environ.get('VERIF_WORK') or os.path.join(VERIF, '.work')
 OMPLX = os.path.join(VERIF, 'tools', 'omplx', 'omplx')
 INST = os.path.join(VERIF, 'inst')
+KEEP_TREES = int(os.environ.get('VERIF_KEEP_TREES', '3'))
 
 
 class AnalysisBroken(Exception):
@@ -99,6 +100,7 @@ def tree_hash():
         with open(OMPLX + '.cc', 'rb') as fh:
             h.update(fh.read())
         h.update(' '.join(flags()).encode())
+        h.update(REPO.encode())
         _treehash = h.hexdigest()[:16]
     return _treehash
 
@@ -116,11 +118,12 @@ def inst_units():
 def _cache_dir():
     d = os.path.join(WORK, 'facts', tree_hash())
     if not os.path.isdir(d):
-        # drop caches of other trees (disk hygiene)
+        # keep only the few most recent trees (disk hygiene)
         base = os.path.join(WORK, 'facts')
         if os.path.isdir(base):
-            for o in os.listdir(base):
-                shutil.rmtree(os.path.join(base, o), ignore_errors=True)
+            olds = sorted((os.path.join(base, o) for o in os.listdir(base)), key=os.path.getmtime, reverse=True)
+            for o in olds[KEEP_TREES - 1:]:
+                shutil.rmtree(o, ignore_errors=True)
         os.makedirs(d, exist_ok=True)
     return d
 
